@@ -559,6 +559,47 @@ def check_euclid_poly(tier):
     return H.finish(res, [], q)
 
 
+def check_poly_exprcoeff():
+    """polynomials whose coefficients are expressions (other variables, exact quotient nodes): the value of p op q equals
+    value(p) op value(q); such coefficients have no order, products put several of them on one exponent"""
+    import operator
+    from pymbolic import evaluate
+    from pymbolic.polynomial import Polynomial
+    from pymbolic.primitives import quotient
+    res = ItemResult(item="polynomials with expression coefficients", sample={"family": "coefficients that are trees"})
+    X, y, z = p.Variable("X"), p.Variable("y"), p.Variable("z")
+    polys = [Polynomial(X, ((0, y), (1, 1))), Polynomial(X, ((0, p.Product((-1, y))), (1, 1))), Polynomial(X, ((0, 1), (1, quotient(1, 2)))),
+             Polynomial(X, ((0, 1), (1, quotient(1, 3)))), Polynomial(X, ((0, quotient(1, 3)), (1, quotient(1, 2)))),
+             Polynomial(X, ((0, z), (1, y), (2, 1))), Polynomial(X, ((0, -1), (1, quotient(1, 2))))]
+    env = {"X": Fraction(3, 2), "y": Fraction(5, 7), "z": Fraction(-2, 3)}
+    ops = [("+", operator.add), ("-", operator.sub), ("*", operator.mul)]
+    for (i, a), (j, b) in itertools.product(enumerate(polys), repeat=2):
+        for nm, f in ops:
+            res.path_assertions += 1
+            try:
+                got = evaluate(f(a, b), env)
+                want = f(evaluate(a, env), evaluate(b, env))
+                ok = got == want or abs(complex(got) - complex(want)) <= 1e-9     # quotient nodes evaluate to floats
+                detail = f"value {got}, expected {want}"
+            except Exception as e:  # noqa: BLE001
+                ok, detail = False, f"raised {e!r}"
+            if not ok:
+                _viol(res, f"polyexprcoeff p{i} {nm} p{j}", "poly-expression-coefficients",
+                      f"({a}) {nm} ({b}) at X=3/2, y=5/7, z=-2/3: {detail}")
+    for i, a in enumerate(polys):
+        for n in (2, 3):
+            res.path_assertions += 1
+            try:
+                got, want = evaluate(a ** n, env), evaluate(a, env) ** n
+                ok, detail = got == want or abs(complex(got) - complex(want)) <= 1e-9, f"value {got}, expected {want}"
+            except Exception as e:  # noqa: BLE001
+                ok, detail = False, f"raised {e!r}"
+            if not ok:
+                _viol(res, f"polyexprcoeff p{i} ** {n}", "poly-expression-coefficients", f"({a}) ** {n}: {detail}")
+    res.paths = 1
+    return res
+
+
 def check_poly_mapper():
     """the value homomorphism also holds after a mapper has rewritten the coefficients"""
     from pymbolic import evaluate, substitute
@@ -661,7 +702,7 @@ def check_quotient(tier):
 
 
 def items(tier):
-    out = [("ipow", "int"), ("ipow", "mat"), ("euclid",), ("euclidpoly",), ("quotient",), ("polymapper",)]
+    out = [("ipow", "int"), ("ipow", "mat"), ("euclid",), ("euclidpoly",), ("quotient",), ("polymapper",), ("polyexprcoeff",)]
     nmax = 12 if tier == "quick" else 32
     for n in range(1, nmax + 1):
         out += [("fft", n, "fft"), ("fft", n, "ifft(fft)")]
@@ -693,6 +734,8 @@ def check_item(item, tier):
         return check_fft(4, "fft", tier, twin=True)
     if k == "poly":
         return check_poly(item[1], tier)
+    if k == "polyexprcoeff":
+        return check_poly_exprcoeff()
     if k == "euclidpoly":
         return check_euclid_poly(tier)
     if k == "polymapper":
